@@ -36,7 +36,7 @@ WEIGHTS = {"scenario": 0.6, "undo": 5, "redo": 3, "delete_node": 5, "add_node": 
 
 
 def plan(tier, seed):
-    return common.session_plan(PROP, tier, seed, quick=2000, thorough=30000)
+    return common.session_plan(PROP, tier, seed, quick=6000, thorough=60000)
 
 
 def run_shard(spec):
